@@ -85,18 +85,19 @@ def model (op : String) (args : List Bytes) : Option String := do
     let s ← (← args[0]?) |> toString?
     pure (match MEntry.fromFilename s with | some e => toString (MEntry.all.idxOf e) | none => "none")
   | "metadata.read" =>
-    let rec go (m : Metadata) : List Bytes → Option (Option Metadata)
+    -- a rejected value is reported (its position) and leaves the object unchanged; the calls go on
+    let rec go (m : Metadata) (idx : Nat) (errs : List Nat) : List Bytes → Option (Metadata × List Nat)
       | k :: v :: rest => do
         let i ← (toString? k).bind String.toNat?
         let e ← MEntry.all[i]?
         let vs ← toStr? v
         match m.read e vs with
-        | none => some none
-        | some m' => go m' rest
-      | _ => some (some m)
-    match ← go {} args with
-    | none => pure "err"
-    | some m => pure (showMetadata m)
+        | none => go m (idx + 1) (errs ++ [idx]) rest
+        | some m' => go m' (idx + 1) errs rest
+      | _ => some (m, errs)
+    let (m, errs) ← go {} 0 [] args
+    let es := if errs.isEmpty then "-" else ",".intercalate (errs.map toString)
+    pure s!"e={es}|{showMetadata m}"
   | "pkgdb.iter" =>
     let nodes ← args.mapM decodeNode
     pure (";".intercalate (sortStrings ((pkgdbIter nodes).map showItem)))
@@ -157,8 +158,7 @@ def oracleC20 (op : String) (args : List Bytes) (impl : String) : String × Stri
     | none => ("na", "")
   | "metadata.read" =>
     -- is_valid iff comment, contents and description are all non-empty (read off the implementation's own dump)
-    if impl == "err" || impl == "PANIC" then
-      (if impl == "PANIC" then ("fail:panic", "nt") else ("ok", ""))
+    if impl == "PANIC" then ("fail:panic", "nt")
     else
       let parts := impl.splitOn "|"
       let get (k : String) : String := ((parts.find? (·.startsWith (k ++ "="))).map (·.drop (k.length + 1)) |>.map toString).getD "?"
